@@ -6,6 +6,18 @@ A commandable property has a priority array of 16 slots, each NULL or a value.
     a command without priority is a command at priority 16
     a command with a priority outside 1..16, or a write to array element 0 (the length) or to an
     element > 16, is refused and changes nothing
+    a write whose value is not a value of the property's datatype (an enumeration number or name the
+    enumeration does not define, a value of another datatype, a number outside the range of the type)
+    is not a command: it is refused and changes nothing, whatever the priority and the state
+    a write to array element k in 1..16: the standard makes Priority_Array read-only (refuse), an
+    implementation may take it as the command "value / NULL at priority k"; both are allowed here,
+    nothing else is (CmdRef.optional_array_element)
+
+Change-of-value subscriptions (clause 13.1) observe an object; they command nothing.  No subscription
+event (subscribe, renew, cancel, lifetime running out) appears in this model: the command state of an
+object with subscribers is the command state of the same object without.  `SubscriptionBook` only
+keeps the harness' own account of what it asked for (so that histories which differ in it are
+explored separately); it has no influence on CmdRef.
 
 Minimum on / minimum off time (clause 19.2.3, binary objects):
     whenever the present value changes to a NEW state S at time t, slot 6 is set to S and kept for
@@ -80,6 +92,20 @@ class CmdRef(object):
         self.slots[array_index] = value
         self._recompute()
 
+    def command_invalid(self, kind, priority=None):
+        """A write of something that is not a value of the datatype (see INVALID): never a command."""
+        raise Refused("invalid value (%s)" % (kind,))
+
+    def optional_array_element(self, array_index, value, accepted):
+        """Write of priority-array element 1..16, where refusing (read-only property) and taking it as a
+        command at that priority are both conforming: `accepted` says which of the two the device
+        under observation answered; the state follows that answer and nothing else."""
+        if self.is_refused(array_index=array_index, via_array=True):
+            raise Refused("array index %r" % (array_index,))
+        if accepted:
+            self.slots[array_index] = value
+            self._recompute()
+
     def _recompute(self):
         new = self.winner()
         if new == self.pv:
@@ -100,6 +126,45 @@ class CmdRef(object):
                 self.hold_until = None
                 self.slots[6] = NULL
                 self._recompute()
+
+
+class SubscriptionBook(object):
+    """What the harness asked a device for, for ONE subscriber of ONE object (clause 13.14 SubscribeCOV):
+    status 'never' (no subscription was ever made), ('active', seconds to live | None = indefinite,
+    confirmed notifications?), 'ended' (the last subscription was cancelled or ran out).  Whole seconds."""
+
+    def __init__(self):
+        self.ever = False
+        self.alive = False
+        self.ttl = None
+        self.confirmed = False
+
+    def subscribe(self, lifetime, confirmed=False):
+        """new subscription or renewal; lifetime 0 / None = indefinite"""
+        self.ever = True
+        self.alive = True
+        self.ttl = lifetime or None
+        self.confirmed = bool(confirmed)
+
+    def cancel(self):
+        self.alive = False
+        self.ttl = None
+
+    def advance(self, seconds=1):
+        for _ in range(seconds):
+            if self.alive and self.ttl is not None:
+                self.ttl -= 1
+                if self.ttl <= 0:
+                    self.alive = False
+                    self.ttl = None
+
+    def status(self):
+        if self.alive:
+            return ("active", self.ttl, self.confirmed)
+        return "ended" if self.ever else "never"
+
+    def count(self):
+        return 1 if self.alive else 0
 
 
 # --------------------------------------------------------------------------------------------------
@@ -155,4 +220,30 @@ DOMAINS = {
     "datetime": {"default": ((100, 1, 1, 6), (12, 0, 0, 0)),
                  "values": [((120, 2, 29, 6), (1, 2, 3, 4)), ((255, 255, 255, 255), (255, 255, 255, 255)),
                             ((99, 12, 31, 5), (23, 59, 59, 99))]},
+}
+
+# Per domain: things that are NOT values of the datatype, as (kind, (datatype tag, content)).
+#   the datatype tag names the BACnet application datatype the content is a value of ("enum" = an
+#   Enumerated number); a harness sends it tagged that way over the wire and hands the bare content to a
+#   programming interface.  kind: "undefined-enumeration-value" (a number the enumeration does not define:
+#   BACnetBinaryPV has 0..1, BACnetDoorValue 0..3), "undefined-enumeration-name", "wrong-datatype",
+#   "out-of-range" (a negative number for an unsigned type; on the wire it can only travel as a signed
+#   integer, i.e. as a wrong datatype; likewise an undefined enumeration *name* travels as a character
+#   string).
+# Chosen so that no content is, in any spelling, a value of the domain it is listed under.
+INVALID = {
+    "real":     [("wrong-datatype", ("chars", "on")), ("wrong-datatype", ("octets", b"x"))],
+    "double":   [("wrong-datatype", ("chars", "on")), ("wrong-datatype", ("octets", b"x"))],
+    "binary":   [("undefined-enumeration-value", ("enum", 7)), ("undefined-enumeration-name", ("chars", "on")),
+                 ("wrong-datatype", ("real", 2.5))],
+    "door":     [("undefined-enumeration-value", ("enum", 9)), ("undefined-enumeration-name", ("chars", "on")),
+                 ("wrong-datatype", ("real", 2.5))],
+    "unsigned": [("wrong-datatype", ("chars", "on")), ("out-of-range", ("integer", -1))],
+    "integer":  [("wrong-datatype", ("chars", "on")), ("wrong-datatype", ("real", 2.5))],
+    "chars":    [("wrong-datatype", ("real", 2.5)), ("wrong-datatype", ("unsigned", 3))],
+    "octets":   [("wrong-datatype", ("chars", "on")), ("wrong-datatype", ("unsigned", 3))],
+    "bits":     [("wrong-datatype", ("chars", "on")), ("wrong-datatype", ("unsigned", 3))],
+    "date":     [("wrong-datatype", ("chars", "on")), ("wrong-datatype", ("unsigned", 3))],
+    "time":     [("wrong-datatype", ("chars", "on")), ("wrong-datatype", ("unsigned", 3))],
+    "datetime": [("wrong-datatype", ("chars", "on")), ("wrong-datatype", ("date", (100, 1, 1, 6)))],
 }
